@@ -495,33 +495,40 @@ def pool_map(fn, items, procs=None, chunk=8):
     opt_idx = sorted(set(range(0, len(items), max(1, len(items) // max(6, len(items) // 16)))))[:120] if os.environ.get("VERIF_NO_OPT") != "1" else []
     opt_res = {}
     opt_proc = None
+    opt_runs = []
     if opt_idx and getattr(fn, "__module__", "").startswith("props."):
         import pickle
         import subprocess
-
-        env = dict(os.environ, PYTHONOPTIMIZE="1", PYTHONHASHSEED="4242", VERIF_NO_OPT="1")
-        opt_proc = subprocess.Popen([sys.executable, "-O", os.path.join(os.path.dirname(os.path.abspath(__file__)), "optworker.py")],
-                                    stdin=subprocess.PIPE, stdout=subprocess.PIPE, stderr=subprocess.PIPE, env=env)
-        payload = pickle.dumps((fn.__module__, fn.__name__, [items[k] for k in opt_idx]))
         import threading
 
-        box = {}
+        # two such interpreters with different hash seeds share the sample (set / dict iteration order differs between them)
+        parts = [(opt_idx[0::2], "4242"), (opt_idx[1::2], "1")]
+        for idxs, hseed in parts:
+            if not idxs:
+                continue
+            env = dict(os.environ, PYTHONOPTIMIZE="1", PYTHONHASHSEED=hseed, VERIF_NO_OPT="1")
+            proc = subprocess.Popen([sys.executable, "-O", os.path.join(os.path.dirname(os.path.abspath(__file__)), "optworker.py")],
+                                    stdin=subprocess.PIPE, stdout=subprocess.PIPE, stderr=subprocess.PIPE, env=env)
+            payload = pickle.dumps((fn.__module__, fn.__name__, [items[k] for k in idxs]))
+            box = {}
 
-        def _feed():
-            box["out"], box["err"] = opt_proc.communicate(payload)
+            def _feed(proc=proc, payload=payload, box=box):
+                box["out"], box["err"] = proc.communicate(payload)
 
-        th = threading.Thread(target=_feed)
-        th.start()
+            th = threading.Thread(target=_feed)
+            th.start()
+            opt_runs.append((idxs, proc, th, box))
+        opt_proc = True
     # executor workers are not daemonic, so a job may itself start processes (gaftools realign)
     with ProcessPoolExecutor(max_workers=procs, mp_context=mp.get_context("fork")) as ex:
         res = list(ex.map(_Guarded(fn), items, chunksize=chunk))
-    if opt_proc is not None:
+    for idxs, proc, th, box in opt_runs:
         th.join(1800)
         out = box.get("out", b"")
         mark = out.rfind(b"\n==RESULT==\n")
-        if opt_proc.returncode != 0 or mark < 0:
+        if proc.returncode != 0 or mark < 0:
             raise MachineryError("the -O worker failed: " + (box.get("err", b"")[-400:].decode(errors="replace")))
-        for k, r in zip(opt_idx, pickle.loads(out[mark + 12:])):
+        for k, r in zip(idxs, pickle.loads(out[mark + 12:])):
             res[k] = _mark_opt(r)       # the result obtained under -O replaces the ordinary one for that job
     return _raise_job_failures(res)
 
